@@ -485,10 +485,9 @@ Qed.
 
 (* ---- x >= a AND x < b fused into one range *)
 Lemma maybe_range_sound r a b ie : maybe_range info a b = Some ie ->
-  range_swap_hit info r (XAnd a b) = false ->
   sound_tv r (and3 (eval en r a) (eval en r b)) (nulls3 info r a || nulls3 info r b) ie.
 Proof.
-  intros Em Hs. cbn [range_swap_hit] in Hs. rewrite Em in Hs. revert Em Hs. unfold maybe_range.
+  unfold maybe_range.
   destruct a as [ | opl ll lr | | | | | | | | | | | ]; try discriminate.
   destruct b as [ | opr rl rr | | | | | | | | | | | ]; try discriminate.
   destruct (maybe_indexed_column info ll) as [[lc ci]|] eqn:El; [|discriminate].
@@ -505,20 +504,16 @@ Proof.
     destruct (snd ip) as [rcq|rcq| |rcq]; try discriminate.
     destruct (bnd_is_null lo); [discriminate|]. destruct (bnd_is_null hi); [discriminate|]. injection Hp as <-.
     exists (fst ip), rcq. repeat split. }
-  remember (val r lc) as vx eqn:Evx.
-  destruct opl, opr; try discriminate; intros Ef Hs; destruct (Hgen _ _ Ef) as [i [rcq [-> [Hlo Hhi]]]];
+  destruct opl, opr; try discriminate; intros Ef; destruct (Hgen _ _ Ef) as [i [rcq [-> [Hlo Hhi]]]];
     cbn [bnd_is_null] in Hlo, Hhi;
     destruct lv as [|lz]; try discriminate; destruct rv as [|rz]; try discriminate;
-    cbn [swapped_pair andb] in Hs;
-    apply sound_tv_leaf; rewrite <- Evx; destruct vx as [x|]; cbn [cmp3 lit_val and3 qmatch above below cmp_holds];
+    apply sound_tv_leaf; destruct (val r lc) as [x|]; cbn [cmp3 lit_val and3 qmatch above below cmp_holds];
     intros; try reflexivity; try discriminate;
     repeat match goal with |- context [(?p <? ?q)%Z] => destruct (Z.ltb_spec p q) end;
     repeat match goal with |- context [(?p <=? ?q)%Z] => destruct (Z.leb_spec p q) end;
-    try reflexivity; exfalso;
-    repeat match type of Hs with context [(?p <? ?q)%Z] => destruct (Z.ltb_spec p q) end;
-    repeat match type of Hs with context [(?p =? ?q)%Z] => destruct (Z.eqb_spec p q) end;
-    cbn [orb andb] in Hs; try discriminate; lia.
+    try reflexivity; exfalso; lia.
 Qed.
+
 (* ---- AND / OR / refine *)
 Lemma ie_and_sound r ta tb na nb x y : sound_tv r ta na x -> sound_tv r tb nb y ->
   sound_tv r (and3 ta tb) (na || nb) (ie_and x y).
@@ -578,27 +573,27 @@ Qed.
    the two finding classes *)
 Lemma visit_node_sound r : row_ok info r = true -> forall e depth ie,
   visit_node info e depth = Ok (Some ie) ->
-  neg_over_null info r e = false -> range_swap_hit info r e = false ->
+  neg_over_null info r e = false ->
   sound_tv r (eval en r e) (nulls3 info r e) ie.
 Proof.
   intros Hok.
   induction e as [c|op l rt|neg t lo hi|neg t items|t|t|x IH|x IH|x IH|a IHa b IHb|a IHa b IHb|f t arg|k];
     intros depth ie; rewrite visit_node_unfold; (destruct (MAX_DEPTH <=? depth); [discriminate|]);
-    cbn [neg_over_null range_swap_hit nulls3 eval].
-  - (* bare column *) intros [= E] _ _. unfold visit_column in E.
+    cbn [neg_over_null nulls3 eval].
+  - (* bare column *) intros [= E] _. unfold visit_column in E.
     destruct (info c) as [ci|] eqn:Hi; [|discriminate]. destruct (ci_bool ci) eqn:Hb; [|discriminate].
     destruct (find_map_some _ _ _ E) as [ip [Hin Hp]].
     rewrite (col_null_indexed_col r c ci Hi).
     exact (proj2 (p_visit_is_bool_sound r c ci ip true ie Hok Hi Hb Hp) eq_refl).
   - (* comparison *) destruct op.
-    + intros [= E] _ _. apply visit_comparison_sound; [discriminate | exact E].
-    + intros E Hn _. rewrite visit_comparison_noteq in E. rewrite <- not3_cmp_eq.
+    + intros [= E] _. apply visit_comparison_sound; [discriminate | exact E].
+    + intros E Hn. rewrite visit_comparison_noteq in E. rewrite <- not3_cmp_eq.
       eapply negate_if_true_sound; [|exact Hn|exact E].
       intros ie0 E0. apply visit_comparison_sound; [discriminate | exact E0].
-    + intros [= E] _ _. apply visit_comparison_sound; [discriminate | exact E].
-    + intros [= E] _ _. apply visit_comparison_sound; [discriminate | exact E].
-    + intros [= E] _ _. apply visit_comparison_sound; [discriminate | exact E].
-    + intros [= E] _ _. apply visit_comparison_sound; [discriminate | exact E].
+    + intros [= E] _. apply visit_comparison_sound; [discriminate | exact E].
+    + intros [= E] _. apply visit_comparison_sound; [discriminate | exact E].
+    + intros [= E] _. apply visit_comparison_sound; [discriminate | exact E].
+    + intros [= E] _. apply visit_comparison_sound; [discriminate | exact E].
   - (* BETWEEN *) unfold visit_between.
     destruct (maybe_indexed_column info t) as [[c ci]|] eqn:Et; [|discriminate].
     destruct (maybe_indexed_column_some _ _ _ _ Et) as [-> Hi].
@@ -609,7 +604,7 @@ Proof.
               sound_tv r (and3 (cmp3 OGtEq (val r c) (lit_val lv)) (cmp3 OLtEq (val r c) (lit_val hv)))
                        (match val r c with None => true | Some _ => false end) ie0).
     { intros ie0 E0. destruct (find_map_some _ _ _ E0) as [ip [Hin Hp]]. exact (p_visit_between_sound r c ci ip lv hv ie0 Hi Hin Hp). }
-    destruct neg; intros E Hn _.
+    destruct neg; intros E Hn.
     + eapply negate_if_true_sound; [exact Hleaf | exact Hn | exact E].
     + eapply negate_if_false_sound; [exact Hleaf | exact E].
   - (* IN *) unfold visit_in_list.
@@ -620,55 +615,55 @@ Proof.
     assert (Hleaf : forall ie0, find_map (fun ip => p_visit_in_list c ip vs) (ci_parsers ci) = Some ie0 ->
               sound_tv r (inlist3 (val r c) (map lit_val vs)) (match val r c with None => true | Some _ => false end) ie0).
     { intros ie0 E0. destruct (find_map_some _ _ _ E0) as [ip [Hin Hp]]. exact (p_visit_in_list_sound r c ci ip vs ie0 Hi Hin Hp). }
-    destruct neg; intros E Hn _.
+    destruct neg; intros E Hn.
     + eapply negate_if_true_sound; [exact Hleaf | exact Hn | exact E].
     + eapply negate_if_false_sound; [exact Hleaf | exact E].
   - (* IS NULL *) unfold visit_is_null.
     destruct (maybe_indexed_column info t) as [[c ci]|] eqn:Et; [|discriminate].
-    destruct (maybe_indexed_column_some _ _ _ _ Et) as [-> Hi]. cbn [eval_term]. intros E _ _.
+    destruct (maybe_indexed_column_some _ _ _ _ Et) as [-> Hi]. cbn [eval_term]. intros E _.
     eapply negate_if_false_sound; [|exact E]. intros ie0 E0.
     destruct (find_map_some _ _ _ E0) as [ip [Hin Hp]]. exact (p_visit_is_null_sound r c ip false ie0 Hp).
   - (* IS NOT NULL *) unfold visit_is_null.
     destruct (maybe_indexed_column info t) as [[c ci]|] eqn:Et; [|discriminate].
-    destruct (maybe_indexed_column_some _ _ _ _ Et) as [-> Hi]. cbn [eval_term]. intros E _ _.
+    destruct (maybe_indexed_column_some _ _ _ _ Et) as [-> Hi]. cbn [eval_term]. intros E _.
     replace (Some (match val r c with None => false | Some _ => true end))
       with (not3 (Some (match val r c with None => true | Some _ => false end))) by (destruct (val r c); reflexivity).
     eapply (negate_if_true_sound r _ false); [|reflexivity|exact E]. intros ie0 E0.
     destruct (find_map_some _ _ _ E0) as [ip [Hin Hp]]. exact (p_visit_is_null_sound r c ip false ie0 Hp).
-  - (* IS TRUE *) intros [= E] _ _. unfold visit_is_bool in E. destruct x as [c| | | | | | | | | | | | ]; try discriminate.
+  - (* IS TRUE *) intros [= E] _. unfold visit_is_bool in E. destruct x as [c| | | | | | | | | | | | ]; try discriminate.
     destruct (info c) as [ci|] eqn:Hi; [|discriminate]. destruct (ci_bool ci) eqn:Hb; [|discriminate].
     destruct (find_map_some _ _ _ E) as [ip [Hin Hp]]. cbn [eval].
     replace (Some (match bool_of_val (val r c) with Some true => true | _ => false end))
       with (Some (match bool_of_val (val r c) with Some v => Bool.eqb v true | None => false end))
       by (destruct (bool_of_val (val r c)) as [[|]|]; reflexivity).
     apply (proj1 (p_visit_is_bool_sound r c ci ip true ie Hok Hi Hb Hp)).
-  - (* IS FALSE *) intros [= E] _ _. unfold visit_is_bool in E. destruct x as [c| | | | | | | | | | | | ]; try discriminate.
+  - (* IS FALSE *) intros [= E] _. unfold visit_is_bool in E. destruct x as [c| | | | | | | | | | | | ]; try discriminate.
     destruct (info c) as [ci|] eqn:Hi; [|discriminate]. destruct (ci_bool ci) eqn:Hb; [|discriminate].
     destruct (find_map_some _ _ _ E) as [ip [Hin Hp]]. cbn [eval].
     replace (Some (match bool_of_val (val r c) with Some false => true | _ => false end))
       with (Some (match bool_of_val (val r c) with Some v => Bool.eqb v false | None => false end))
       by (destruct (bool_of_val (val r c)) as [[|]|]; reflexivity).
     apply (proj1 (p_visit_is_bool_sound r c ci ip false ie Hok Hi Hb Hp)).
-  - (* NOT *) intros E Hn Hs.
+  - (* NOT *) intros E Hn.
     destruct (visit_node info x (depth + 1)) as [[node|]| |] eqn:Ex; try discriminate.
     assert (Hn' : neg_over_null info r x = false).
     { destruct (neg_over_null info r x) eqn:En; [|reflexivity]. rewrite (neg_over_null_nulls3 r x En) in Hn. discriminate. }
-    exact (maybe_not_sound r _ _ _ node ie (IH (depth + 1) node Ex Hn' Hs) Hn E).
-  - (* AND *) intros E Hn Hs. destruct (maybe_range info a b) as [re|] eqn:Er.
-    + injection E as <-. apply maybe_range_sound; [exact Er|]. cbn [range_swap_hit]. rewrite Er. exact Hs.
-    + apply orb_false_iff in Hn as [Hna Hnb]. apply orb_false_iff in Hs as [Hsa Hsb].
+    exact (maybe_not_sound r _ _ _ node ie (IH (depth + 1) node Ex Hn') Hn E).
+  - (* AND *) intros E Hn. destruct (maybe_range info a b) as [re|] eqn:Er.
+    + injection E as <-. apply maybe_range_sound. exact Er.
+    + apply orb_false_iff in Hn as [Hna Hnb].
       destruct (visit_node info a (depth + 1)) as [lft| |] eqn:Ea; try discriminate.
       destruct (visit_node info b (depth + 1)) as [rgt| |] eqn:Eb; try discriminate.
       injection E as E. destruct lft as [l|], rgt as [rg|]; try discriminate; injection E as <-.
-      * apply ie_and_sound; [exact (IHa _ _ Ea Hna Hsa) | exact (IHb _ _ Eb Hnb Hsb)].
-      * eapply ie_refine_sound_l; [exact (IHa _ _ Ea Hna Hsa) | reflexivity].
-      * eapply ie_refine_sound_r; [exact (IHb _ _ Eb Hnb Hsb) | reflexivity].
-  - (* OR *) intros E Hn Hs. apply orb_false_iff in Hn as [Hna Hnb]. apply orb_false_iff in Hs as [Hsa Hsb].
+      * apply ie_and_sound; [exact (IHa _ _ Ea Hna) | exact (IHb _ _ Eb Hnb)].
+      * eapply ie_refine_sound_l; [exact (IHa _ _ Ea Hna) | reflexivity].
+      * eapply ie_refine_sound_r; [exact (IHb _ _ Eb Hnb) | reflexivity].
+  - (* OR *) intros E Hn. apply orb_false_iff in Hn as [Hna Hnb].
     destruct (visit_node info a (depth + 1)) as [lft| |] eqn:Ea; try discriminate.
     destruct (visit_node info b (depth + 1)) as [rgt| |] eqn:Eb; try discriminate.
     injection E as E. destruct lft as [l|], rgt as [rg|]; try discriminate.
-    exact (maybe_or_sound r _ _ _ _ l rg ie (IHa _ _ Ea Hna Hsa) (IHb _ _ Eb Hnb Hsb) E).
-  - (* scalar function *) intros [= E] _ _. unfold visit_scalar_fn in E.
+    exact (maybe_or_sound r _ _ _ _ l rg ie (IHa _ _ Ea Hna) (IHb _ _ Eb Hnb) E).
+  - (* scalar function *) intros [= E] _. unfold visit_scalar_fn in E.
     destruct (maybe_indexed_column info t) as [[c ci]|] eqn:Et; [|discriminate].
     destruct (maybe_indexed_column_some _ _ _ _ Et) as [-> Hi].
     destruct (find_map_some _ _ _ E) as [ip [Hin Hp]].
@@ -784,11 +779,10 @@ Theorem index_scan_eq_scan p :
   (forall ie sq, apply_scalar_indices info p = Ok ie -> scalar_query ie = Some sq ->
      forall l, In l (s_leaves sq) -> leaf_ok l) ->
   Known_C19_not_over_nullable info tbl p = false ->
-  Known_C19_range_bounds_swapped info tbl p = false ->
   apply_scalar_indices info p <> Err ->
   index_scan en info search cov tbl p = Ok (full_scan en tbl p).
 Proof.
-  intros Hpar Hfn Hrows Hleaves Hk1 Hk2 Hne. unfold index_scan. unfold apply_scalar_indices in *.
+  intros Hpar Hfn Hrows Hleaves Hk1 Hne. unfold index_scan. unfold apply_scalar_indices in *.
   destruct (visit_node_sq info p 0) as [Hnp Hsq].
   destruct (visit_node info p 0) as [[ie|]| |] eqn:Ev; try congruence; [|reflexivity].
   specialize (Hsq ie eq_refl). unfold has_sq in Hsq. destruct (scalar_query ie) as [sq|] eqn:Esq; [|congruence].
@@ -798,10 +792,7 @@ Proof.
   assert (Hk1r : neg_over_null info r p = false).
   { unfold Known_C19_not_over_nullable in Hk1. destruct (neg_over_null info r p) eqn:E; [|reflexivity].
     assert (X : existsb (fun r => neg_over_null info r p) tbl = true) by (apply existsb_exists; exists r; split; assumption). congruence. }
-  assert (Hk2r : range_swap_hit info r p = false).
-  { unfold Known_C19_range_bounds_swapped in Hk2. destruct (range_swap_hit info r p) eqn:E; [|reflexivity].
-    assert (X : existsb (fun r => range_swap_hit info r p) tbl = true) by (apply existsb_exists; exists r; split; assumption). congruence. }
-  destruct (visit_node_sound en info Hpar Hfn r (Hrows r Hr) p 0 ie Ev Hk1r Hk2r) as [sq' [Esq' [HA _]]].
+  destruct (visit_node_sound en info Hpar Hfn r (Hrows r Hr) p 0 ie Ev Hk1r) as [sq' [Esq' [HA _]]].
   rewrite Esq in Esq'. injection Esq' as <-.
   unfold keep_row. destruct (covered_by cov sq (rfrag r)) eqn:Ec; [|reflexivity].
   pose proof (struth_id_row r sq Hr Hleaves Ec) as Hid.
@@ -1094,12 +1085,11 @@ Proof. intros H c ci ip Hi Hin. rewrite (H c ci ip Hi Hin). reflexivity. Qed.
 Theorem exact_index_scan_eq_scan en info ixs tbl p :
   exact_info info -> fn_definite en -> table_ok info tbl -> indices_ok info ixs tbl ->
   Known_C19_not_over_nullable info tbl p = false ->
-  Known_C19_range_bounds_swapped info tbl p = false ->
   Known_C19_bitmap_inverted_range info ixs p = false ->
   sdepth p < MAX_DEPTH ->
   index_scan en info (exact_search ixs) (exact_cov ixs) tbl p = Ok (full_scan en tbl p).
 Proof.
-  intros Hex Hfn Htbl Hix Hk1 Hk2 Hk3 Hd.
+  intros Hex Hfn Htbl Hix Hk1 Hk3 Hd.
   apply (index_scan_eq_scan en info (exact_search ixs) (exact_cov ixs)
            (fun l x => match exact_search ixs l with Ok (SExact t) => tm_contains t x | _ => false end)).
   - exact (exact_info_parsers_ok info Hex).
@@ -1122,7 +1112,6 @@ Proof.
     + exists (SExact t). split; [reflexivity|]. split; [exact Hw|]. cbn [leaf_sound]. reflexivity.
     + intros r Hr Hc. apply Hrows; [exact Hr | exact (proj2 (Htbl r Hr)) | exact Hc].
   - exact Hk1.
-  - exact Hk2.
   - unfold apply_scalar_indices. pose proof (visit_node_no_err info p 0) as Hne.
     destruct (visit_node info p 0) as [[ie0|]| |]; try discriminate. exfalso. apply Hne; [|reflexivity]. exact Hd.
 Qed.
